@@ -141,8 +141,12 @@ func Load(dir, goarch, modPath string, minPkgs int) (*Ctx, error) {
 				// kept in a table; its enclosing function decides
 				return true
 			}
-			if g.Object() == nil || g.Object().Exported() {
+			if g.Object() == nil {
 				return false
+			}
+			if g.Object().Exported() {
+				// an exported function the pinned tree does not have: a helper / accessor added later
+				return !pinnedExported[c.FuncName(g)] && !c.isAnchorFn(g) && g.Name() != "String" && g.Name() != "Error"
 			}
 			return !c.isAnchorFn(g) && !strings.HasPrefix(g.Name(), "toString_") && !strings.HasPrefix(g.Name(), "init")
 		}}
@@ -167,7 +171,14 @@ func Load(dir, goarch, modPath string, minPkgs int) (*Ctx, error) {
 			// second normalisation: loops with a compile-time constant trip count are unrolled and local tables
 			// (composite literals accessed by constant indices) dissolved, see xt/ssa/unroll.go. Nothing on the
 			// tree the rules were written for qualifies.
-			c.Unrolled = append(c.Unrolled, ssa.NormalizeLoops(c.ModFuncs, ssa.UnrollOptions{DataOnly: true})...)
+			c.Unrolled = append(c.Unrolled, ssa.NormalizeLoops(c.ModFuncs, ssa.UnrollOptions{DataOnly: true, StructCopies: func(f *ssa.Function) bool {
+				for _, l := range c.Inlined {
+					if strings.HasPrefix(l, f.String()+" <- ") {
+						return true
+					}
+				}
+				return false
+			}})...)
 			// reads at an integer offset that walks a byte slice (b[off+2:off+4]) become reads of the element at
 			// the cursor (elem := b[off:]; elem[2:4]), see xt/ssa/cursor.go. Nothing on the tree the rules were
 			// written for qualifies.
@@ -193,6 +204,13 @@ func Load(dir, goarch, modPath string, minPkgs int) (*Ctx, error) {
 			// an offset that became constant through a split (offset + 8 + addressLength) is read at the cursor now
 			c.Unrolled = append(c.Unrolled, ssa.NormalizeOffsetReads(c.ModFuncs)...)
 			// a call through a table entry or a local function value may have become a direct call by now: once more
+		}
+	}
+	if want := os.Getenv("IKELINT_DUMP_FN"); want != "" {
+		for _, fn := range c.ModFuncs {
+			if fn.Name() == want || fn.String() == want {
+				fn.WriteTo(os.Stderr)
+			}
 		}
 	}
 	return c, nil
